@@ -62,6 +62,10 @@ CHECKS = {
             "History search with a step-wise invariant, no fault dimension (the property speaks of edits that complete; rejected edits are rolled back). Open known findings: controller targets after replace_* and drop_elements_at_buses. " + COMMON_NOTE,
             "deterministic simulation (history dimension only): seeded edit sequences with a referential-integrity invariant after every step",
             "DESIGN.md section 4, C22"),
+    "C27": ("Seeded search over histories of group operations (create, attach incl. mismatching reference columns, detach, drop, reference-column changes, setters, result sums) interleaved with element drops, creations and re-indexing of elements and groups, compared after every step with an abstract set model.",
+            "History search against a reference model, no fault dimension; unique element names. " + COMMON_NOTE,
+            "deterministic simulation (history dimension only): seeded operation sequences against an executable set model",
+            "DESIGN.md section 4, C27"),
     "C30": ("Seeded search over interleavings of several Diagnostic clients (instantiation, registration, diagnose_network with options, report) in one process; every call is checked against a per-instance model, a snapshot of the diagnosed net, and - for a sampled subset - the same call as the only call of a fresh forked process.",
             "The fresh-process oracle is sampled (about 1 in 3 calls, at least one per episode) because fork is expensive under load in this VM; known module-level state is reset at episode start. " + COMMON_NOTE,
             "deterministic simulation: seeded client interleaving over shared process state, reference model + fresh-process isolation oracle",
